@@ -943,14 +943,38 @@ class Live:
                 out = call(lambda: list(pickle.loads(pickle.dumps(ctx.copy().lattice))))
             self.need(out.ok, 'lattice_constructs', lambda: f'building a lattice ({how}) raised {out.text()}')
             shell = Slot(sl.li, sl.objs, sl.props, f)
-            self.orphans.append((shell, out.value, f'orphan({how})'))
+            ms_ = out.value
+            started = None
+            if rec.want('C09') and len(ms_) == len(f.concepts()):
+                c0 = ms_[index % len(ms_)]
+                direction = 'up' if index % 2 else 'down'
+                gen = call(c0.upset if direction == 'up' else c0.downset)
+                first = call(next, gen.value) if gen.ok else gen
+                if gen.ok and first.ok:
+                    started = (c0, direction, gen.value, [first.value])
+            self.orphans.append((shell, ms_, f'orphan({how})'))
             del self.orphans[:-2]
             gc.collect()
+            if started:
+                c0, direction, g, got = started
+                rest = call(list, g)
+                table = {}
+                for c in ms_:
+                    table.setdefault(shell.omask(c.extent), c)
+                if set(table) == {e for e, _ in f.concepts()}:
+                    want = self.traversal_want(shell, table, direction, [c0])
+                    self.check_traversal(shell, direction, got + rest.value if rest.ok else None, want, final=True,
+                                         what=f'{direction}set of {c0.extent!r} started before and finished after its lattice was dropped',
+                                         err=rest)
             rec.fault('lattice_dropped_concepts_kept')
             rec.log(str(len(out.value)))
             return (s,)
         if kind == 'lat_direct':
-            # the documented constructor: another lattice on the same Context instance
+            # the documented constructor: another lattice on the same Context instance; now and then a lattice
+            # above some objects is built first (its result is not audited - nothing may leak from it)
+            if index % 3 == 0:
+                call(C.lattices.Lattice, sl.ctxs[0], [sl.objs[index % f.n]])
+                rec.fault('sublattice_built_first')
             out = call(C.lattices.Lattice, sl.ctxs[0])
             self.need(out.ok, 'lattice_constructs', lambda: f'Lattice(context) raised {out.text()}')
             sl.add_lat(out.value, 'Lattice(ctx)')
